@@ -36,9 +36,18 @@ def gen(rng, tier):
     ctx.allow_unknown = rng.random() < 0.5
     ctx.p_fine_chunks = rng.choice([0.0, 0.0, 0.4])
     ctx.p_reduction_twin = rng.choice([0.15, 0.5])
+    tree_bias = rng.random() < 0.2
+    if tree_bias:
+        # trees sized at construction (arg reductions) over inputs whose optimized block grid is finer
+        # than the advertised one (native sliding-window reductions), under several fan-ins
+        ctx.weights.update({"window": 5.0, "reduction": 6.0})
+        ctx.p_arg_reduction = 0.6
+        ctx.p_fine_chunks = 0.5
     recipe, targets = gen_programs(rng, ctx, tier)
     keys = sorted(H.CONFIG_DOMAIN)
     cfg_keys = [k for k in keys if rng.random() < 0.6] or keys
+    if tree_bias:
+        cfg_keys = ["split_every", "split_every", "split_every", "array.optimize-graph", "array.chunk-size"]
     hist = gen_history(rng, targets, cfg_keys, tier)
     return {"recipe": recipe, "targets": targets, "history": hist}
 
@@ -119,7 +128,7 @@ def nontrivial(case, stats):
 
 def execute(case, stats, log):
     m = H.Machine(case, stats, log, ID)
-    m.pristine_phase(case["targets"])
+    m.pristine_phase(case["targets"], probe_kinds=True)
     for v in case["targets"]:
         p = m.pristine[v]
         log.append(["pristine", v, m.nm(p.get("name")), fp(p.get("value")) if p["error"] is None else p["error"][:60]])
@@ -162,6 +171,12 @@ def run_history(m, case, stats, log, check=None):
                 # values, so this run cannot be judged; recorded, not reported
                 stats["unclaimed.build_raised"] = stats.get("unclaimed.build_raised", 0) + 1
                 raise Invalid(f"build of {var} raised {type(e).__name__}: {str(e)[:200]}")
+            if usable and ev["ev"] not in (m.pristine[m.origin.get(var)].get("kinds_ok") or MATERIALIZE + ("inspect", "simplify")):
+                # the same operation raises on the same program with no history and default configuration:
+                # not a matter of history or configuration (an entry-point matter, C05/C08)
+                stats["unclaimed.raises_without_history"] = stats.get("unclaimed.raises_without_history", 0) + 1
+                log.append([i, ev["ev"], var, "raises-also-pristine"])
+                continue
             if ev["ev"] in MATERIALIZE and usable:
                 raise Violation(ID, "raises-under-history",
                                 f"event {i} {ev['ev']}({var}) raised {type(e).__name__}: {str(e)[:300]} but the same "
